@@ -143,6 +143,14 @@ def parse_vspec(path):
                 continue
             elif d == "@include":
                 u.parts.append(("include", rest))
+            elif d == "@generate":
+                # @generate <script relative to /verif>   -- run on every generation with REPO as argument;
+                # its stdout is included verbatim (a non-zero exit stops the unit: exit 2)
+                import subprocess
+                pr = subprocess.run([sys.executable, os.path.join(VERIF, rest), REPO], capture_output=True, text=True)
+                if pr.returncode != 0:
+                    raise RsxError(f"generator {rest} failed: {pr.stderr.strip()[-400:]}")
+                u.parts.append(("raw", f"// @generate {rest}\n" + pr.stdout))
             elif d == "@macros":
                 p, _, names = rest.partition(":")
                 src = open(os.path.join(REPO, p.strip())).read()
@@ -560,8 +568,9 @@ def build_item(u, spec, twin, gen):
         if fs and fs.stub and f.has_body:
             ed.edits = [x for x in ed.edits if not (f.body_s <= x[0] and x[1] <= f.body_e and x[3] != "DROP")]
             ed.add(f.body_s, f.body_e, "{ unimplemented!() }", "S-stub")
-            for t in itoks:
-                if f.params_open <= t.s < f.params_close and t.kind == "id" and t.text == "mut":
+            for ti, t in enumerate(itoks):
+                if f.params_open <= t.s < f.params_close and t.kind == "id" and t.text == "mut" \
+                        and not (ti > 0 and itoks[ti - 1].text in ("&", ) or (ti > 0 and itoks[ti - 1].kind == "life")):
                     nxt = text[t.e:t.e + 1]
                     ed.edits = [x for x in ed.edits if not (t.s <= x[0] and x[1] <= t.e + 1)]
                     ed.add(t.s, t.e + (1 if nxt == " " else 0), "", "S-stub")
